@@ -172,6 +172,8 @@ def carver_kwargs(case, vals):
     if case["carver"] != "continuous":
         kw["sort_by"] = cfg.get("sort_by", "tschuprowt")
     kw.update(feature_kwargs(case["kind"], vals))
+    if case.get("vocabulary"):  # the user lists the known categories of a NON-ordinal feature
+        kw["values_orders"] = {"f": sorted(vals)}
     if case.get("companion") == "id":
         kw["qualitative_features"] = list(kw.get("qualitative_features", [])) + ["g"]
     kw.update(case.get("kw") or {})  # user-chosen sentinels (str_nan / str_default)
@@ -182,6 +184,8 @@ def discretizer_for(case, vals):
     from AutoCarver.discretizers import Discretizer
 
     fk = feature_kwargs(case["kind"], vals)
+    if case.get("vocabulary"):
+        fk["values_orders"] = {"f": sorted(vals)}
     return Discretizer(
         quantitative_features=fk.get("quantitative_features", []),
         qualitative_features=fk.get("qualitative_features", []),
